@@ -180,7 +180,7 @@ func edit(r *rand.Rand, p hProg, seq *int) (hProg, string) {
 	var q hProg
 	for tries := 0; tries < 20; tries++ {
 		q = p.clone()
-		switch op := r.Intn(10); op {
+		switch op := r.Intn(13); op {
 		case 0: // retype a field
 			t := &q.Types[r.Intn(len(q.Types))]
 			f := &t.Fields[r.Intn(len(t.Fields))]
@@ -298,6 +298,68 @@ func edit(r *rand.Rand, p hProg, seq *int) (hProg, string) {
 				continue
 			}
 			return q2, "retype-nested-arg"
+		case 10: // add a type together with a call on it
+			*seq++
+			t := hType{Name: fmt.Sprintf("A%d", *seq)}
+			for j, nf := 0, 1+r.Intn(3); j < nf; j++ {
+				ft := hFieldTypes[r.Intn(len(hFieldTypes))]
+				if r.Intn(3) == 0 {
+					ft = []string{"*", "[]", ""}[r.Intn(3)] + q.Types[r.Intn(len(q.Types))].Name
+				}
+				t.Fields = append(t.Fields, hField{fmt.Sprintf("F%d", j), ft})
+			}
+			q.Types = append(q.Types, t)
+			*seq++
+			kind := []string{"equal", "hash", "compare", "clone", "gostring", "deepcopy"}[r.Intn(6)]
+			q.Calls = append(q.Calls, hCall{kind, fmt.Sprintf("N%d", *seq), "*" + t.Name})
+			return q.dedupCalls(), "add-type"
+		case 11: // remove a type no other type refers to, with the calls that name it
+			if len(q.Types) < 2 {
+				continue
+			}
+			var free []int
+			for i, t := range q.Types {
+				used := false
+				for j, o := range q.Types {
+					for _, f := range o.Fields {
+						if j != i && hMentions(f.Type, t.Name) {
+							used = true
+						}
+					}
+				}
+				if !used {
+					free = append(free, i)
+				}
+			}
+			if len(free) == 0 {
+				continue
+			}
+			i := free[r.Intn(len(free))]
+			name := q.Types[i].Name
+			q.Types = append(q.Types[:i], q.Types[i+1:]...)
+			var keep []hCall
+			for _, c := range q.Calls {
+				if !hMentions(c.Arg, name) {
+					keep = append(keep, c)
+				}
+			}
+			q.Calls = keep
+			return q, "remove-type"
+		case 12: // rename a type everywhere (the derived functions' signatures change, their names do not)
+			i := r.Intn(len(q.Types))
+			old := q.Types[i].Name
+			*seq++
+			nn := fmt.Sprintf("Q%d", *seq)
+			q.Types[i].Name = nn
+			for ti := range q.Types {
+				for fi := range q.Types[ti].Fields {
+					q.Types[ti].Fields[fi].Type = hRename(q.Types[ti].Fields[fi].Type, old, nn)
+				}
+			}
+			for ci := range q.Calls {
+				q.Calls[ci].Arg = hRename(q.Calls[ci].Arg, old, nn)
+			}
+			return q, "rename-type"
 		case 9: // remove all calls
 			if r.Intn(3) != 0 {
 				continue
@@ -309,6 +371,15 @@ func edit(r *rand.Rand, p hProg, seq *int) (hProg, string) {
 	q = p.clone()
 	q.Calls = append(q.Calls, randCall(r, q, seq))
 	return q.dedupCalls(), "add-call"
+}
+
+// hMentions reports whether the type expression names the given program type.
+func hMentions(expr, name string) bool {
+	return regexp.MustCompile(`\b` + name + `\b`).MatchString(expr)
+}
+
+func hRename(expr, old, nn string) string {
+	return regexp.MustCompile(`\b`+old+`\b`).ReplaceAllString(expr, nn)
 }
 
 type scratchRef struct {
@@ -634,7 +705,7 @@ func remnantKey(which, class, edit string) string {
 func (c *Ctx) c07FlagHistories() {
 	type fh struct {
 		name, plugin, call, newFile string
-		flags                      []string
+		flags                       []string
 	}
 	var hs []fh
 	for _, pl := range []struct{ name, call string }{{"equal", "func use%s(a, b *%s) bool { return deriveEqual(a, b) }"}, {"hash", "func use%s(a *%s) uint64 { return deriveHash(a) }"}, {"compare", "func use%s(a, b *%s) int { return deriveCompare(a, b) }"}} {
